@@ -146,6 +146,11 @@ func (d *CSVDecoder) Decode(data []byte, _ ...any) (any, error) {
 	buffers.fieldIndexes = buffers.fieldIndexes[:0]
 parseField:
 	for {
+		if len(data) == 0 {
+			// delimiter was the last byte: one more empty field.
+			buffers.fieldIndexes = append(buffers.fieldIndexes, len(buffers.recordBuffer))
+			break parseField
+		}
 		if data[0] != quoteChar {
 			// Non-quoted string field
 			i := bytes.IndexByte(data, d.params.delimiter)
@@ -176,6 +181,11 @@ parseField:
 					// Hit next quote.
 					buffers.recordBuffer = append(buffers.recordBuffer, data[:i]...)
 					data = data[i+quoteLen:]
+					if len(data) == 0 {
+						// closing quote was the last byte (end of data).
+						buffers.fieldIndexes = append(buffers.fieldIndexes, len(buffers.recordBuffer))
+						break parseField
+					}
 					switch rn := data[0]; {
 					case rn == quoteChar:
 						// `""` sequence (append quote).
